@@ -359,6 +359,12 @@ def build(P):
                         chain.append(("Program", call_lines[0]))
                     L.append("OUTPUT \"not reached\"")
                     cases.append(Case(id="C11-rt-%d-%s-%d" % (i, fk, depth), prog=("\n".join(L) + "\n").encode(), meta=dict(kind="runtime", chain=chain)))
+        # call sites whose argument binding itself makes calls; an error inside a function called from an index expression (two former defects)
+        extra = [('DECLARE A : ARRAY[1:3] OF INTEGER\nFUNCTION F(n : INTEGER) RETURNS INTEGER\n    RETURN n\nENDFUNCTION\nPROCEDURE P(BYREF p : INTEGER)\n    OUTPUT 1 DIV 0\nENDPROCEDURE\nA[1] <- 0\nCALL P(A[F(1)])\n', [("P", 6), ("Program", 9)]), ('TYPE E = (A, B)\nDECLARE A : ARRAY[1:3] OF INTEGER\nFUNCTION F(n : INTEGER) RETURNS INTEGER\n    OUTPUT zzz\n    RETURN n\nENDFUNCTION\nOUTPUT A[F(1)]\nOUTPUT "after"\n', [("F", 4), ("Program", 7)]),
+                 ("DECLARE A : ARRAY[1:3] OF INTEGER\nFUNCTION F(n : INTEGER) RETURNS INTEGER\nRETURN n\nENDFUNCTION\nFUNCTION G(BYREF p : INTEGER, BYVAL q : INTEGER) RETURNS INTEGER\nRETURN p DIV q\nENDFUNCTION\nA[2] <- 5\nOUTPUT G(A[F(F(2))], F(0))\nOUTPUT \"not reached\"", [("G", 6), ("Program", 9)]),
+                 ("DECLARE A : ARRAY[1:3] OF INTEGER\nFUNCTION F(n : INTEGER) RETURNS INTEGER\nRETURN n\nENDFUNCTION\nPROCEDURE Inner(BYREF p : INTEGER)\nOUTPUT undefined_zz\nENDPROCEDURE\nPROCEDURE Outer(BYREF r : INTEGER)\nCALL Inner(A[F(r)])\nENDPROCEDURE\nA[1] <- 1\nCALL Outer(A[F(1)])\nOUTPUT \"not reached\"", [("Inner", 6), ("Outer", 9), ("Program", 12)])]
+        for j, (ptxt, chain) in enumerate(extra):
+            cases.append(Case(id="C11-rtx-%d" % j, prog=(ptxt.rstrip("\n") + "\n").encode(), meta=dict(kind="runtime", chain=chain)))
         for ch in chunks(cases, 500):
             yield ("runtime-faults", ch)
 
